@@ -17,5 +17,8 @@ for g in (1, 2, 4):
         OBLIGATIONS.append(ob("image_g%d_%s" % (g, MODES[m].lower()), ["CF_R=2", "CF_L=4", "STRINGSIZE=16", "GRAN=%d" % g, "MODE=%d" % m, "SHORTCPU=%s" % SHORTCPU[g]],
                               "2 records x <= 4 bytes (long and short form), granularity %d, -m %s, any start < 2^31, window <= 2048 units, -S -4..4, -e, -f list <= 2, -segment, auto/explicit range, (offset) <= 0x1000" % (g, MODES[m]),
                               timeout=1500, tier="quick" if quick else "thorough"))
+OBLIGATIONS.append(dict(name="removeoffset", src="offset.c", include=["toolutils.c"], defs=["STRINGSIZE=16"], unwind=10, unwind_fn={"harness": 10},
+    functions=["toolutils.c:RemoveOffset"], bounds="file arguments of 0..5 arbitrary characters, arbitrary previous content of the offset variable",
+    assumes=["ConstLongInt (number parsing) cut to 'returns an arbitrary value, success'"]))
 META = dict(outside=["option text parsing (ConstLongInt on strings), (offset) suffix parsing", "-s checksum (pending)", "more than 2 records / several input files", "-k"],
             assumptions=["malloc never fails"])
